@@ -97,6 +97,12 @@ def source_sets(sc):
     with open(os.path.join(d2, silent3), "wb") as f:
         f.write(b"plain words\n" * 5)
     sets.append((d2, ["b.log", "u.journal", "long.log", silent3], []))
+    # S3: messages with EMPTY lines inside them: every journal entry in the export rendering ends with one; a text message
+    # with blank continuation lines (one, two in a row, one at its very end)
+    with open(os.path.join(d2, "blank.log"), "wb") as f:
+        f.write(b"2023-04-02T07:06:50+00:00 src=K idx=0\n\n  after one blank\n\n\n  after two blanks\n"
+                b"2023-04-02T07:07:00.789680+00:00 src=K idx=1\n\n2023-04-02T07:07:10+00:00 src=K idx=2\n")
+    sets.append((d2, ["blank.log", "u.journal"], ["--journal-output", "export"]))
     return sets
 
 
